@@ -927,6 +927,21 @@ func (r *replayer) run(h *Harness, vals []interp.ReplayValue, params map[string]
 
 // reproduce replays a counterexample against the real build.
 func (r *replayer) reproduce(h *Harness, v *interp.Violation, params map[string]int64) (bool, string) {
+	// native behaviour may depend on Go's randomised map iteration order, which the
+	// executor explores as a policy: a counterexample counts as reproduced when one of a
+	// few native runs shows it
+	var last string
+	for attempt := 0; attempt < 8; attempt++ {
+		ok, msg := r.reproduceOnce(h, v, params)
+		if ok {
+			return true, msg
+		}
+		last = msg
+	}
+	return false, last
+}
+
+func (r *replayer) reproduceOnce(h *Harness, v *interp.Violation, params map[string]int64) (bool, string) {
 	nr, err := r.run(h, v.Values, params)
 	if err != nil {
 		return false, err.Error()
